@@ -309,3 +309,19 @@ func (v *Val) strings(out *[]string) {
 		}
 	}
 }
+
+// strings and map keys only (no bytes / fixed)
+func (v *Val) textStrings(out *[]string) {
+	if v == nil {
+		return
+	}
+	if v.K == "str" {
+		*out = append(*out, v.S)
+	}
+	*out = append(*out, v.Keys...)
+	for _, l := range [][]*Val{v.Incs, v.Fields, v.Items} {
+		for _, x := range l {
+			x.textStrings(out)
+		}
+	}
+}
